@@ -289,7 +289,8 @@ def ob_states(chk, w):
 def ob_tagw(chk, w):
     # token ids: Predictor::new inserts (u32::try_from(i), ..) with i the enumerate index over model.tag_models, and pushes
     # one tag n-gram model per iteration to the vectors whose len() sizes tag_weight
-    cl = w.body(C.P + "::new::{closure#0}")
+    from . import c09 as _c09
+    cl = _c09.tag_loop_body(w, C.P + "::new")
     ok = False
     detail = ""
     if cl is not None:
@@ -309,7 +310,10 @@ def ob_tagw(chk, w):
         ccf = cfgmod.cfg_of(cl)
         cloops = ccf.natural_loops()
         per_path = set()
+        ins_bbs = {bb for bb, t in cfgmod.calls(cl) if (cfgmod.callee(t) or "").endswith("HashMap::insert")}
         for h in cloops:
+            if not (ins_bbs & cloops[h]):
+                continue
             pre_ = [o for o in ci.run(0, stop=[h]) if o.kind == "stop"]
             if not pre_:
                 continue
